@@ -32,7 +32,7 @@ TRUSTED = [
     "pyvc symbolic executor (own VC generator): Python semantics of the supported subset as encoded in /verif/pyvc",
     "z3 4.x / cvc5 as decision procedures",
     "machine numbers treated as mathematical reals/integers (floating-point rounding not modelled)",
-    "pow axioms: pow(b,0)=1, pow(b,1)=b, pow(b,e1+e2)=pow(b,e1)*pow(b,e2) where defined",
+    "pow axioms: pow(b,0)=1, pow(b,1)=b, pow(b,e1+e2)=pow(b,e1)*pow(b,e2) where defined; defined(b,e) <=> b>0 or (b=0 and e>=0) or (b<0 and e integer)",
     "external contracts of numpy/math functions (pyvc/externals.py)",
     "WF invariant on input trees (DESIGN 2.2): established by the parser (C10), preserved by rules (C07)",
     "callee contracts used at call sites: clone/clone_from_root (proved in C13), get_root/get_root_side/find_type/all_changed (C14), factor (C16)",
